@@ -102,6 +102,17 @@ def run(v, tier, seed, replay):
     nval, nev = repotests.run(v, max_events=8000 if tier == "quick" else 150000)
     v.add("traces_validated_against_impl", nval)
     v.add("events_validated", nev)
+    # programs whose threads END: "when every object has been destroyed and the block cache emptied" includes the cache of a worker
+    # thread, which only the end of that thread empties (module Threads, DrainOnExit).  One recorded run of real threads using vectors,
+    # thread-local scratch objects of the library and solver queries; heap / hand-over / exit events validated by ThreadsTrace.
+    from props import c18 as _c18
+    tev = ttr = 0
+    for n_, rounds_ in ([(2, 3)] if tier == "quick" else [(2, 4), (4, 4)]):
+        e_, t_ = _c18.thread_lifetime_accounting(v, n_, rounds_, seed)
+        tev += e_; ttr += t_
+    v.add("traces_validated_against_impl", ttr)
+    v.add("events_validated", tev)
+    v.cov["thread_lifetime_events_validated"] = tev
     thrown = sum(1 for s in allr for y in s if '"out":"rt"' in y)
     v.cov["calls_ending_in_library_exception"] = thrown
     if thrown < 10:
